@@ -13,6 +13,8 @@ Format (line oriented; '@' directives start in column 0):
                                                                      | trait Trait::name | ::name
     @props C01 C15
     @sig `regex`            the function's signature in /repo must match (drift -> exit 2)
+    @optional               a helper that a change may inline away: when the function is absent nothing is emitted for it
+                            (its obligations then count as 'no longer generated' = undecided, unless a caller's obligation fails)
     @rewrite `from` => `to` function-local literal rewrite (logged)
     @requires / @ensures    clauses:  [id | props] expr   (continuation lines indented)
     @decreases EXPR         function-level decreases (recursive fns)
@@ -81,6 +83,7 @@ class FnSpec:
         self.loops = []
         self.inserts = []
         self.nobody = False
+        self.optional = False
         self.extra_attrs = []
         self.stub = False
         self.from_unit = None
@@ -293,6 +296,8 @@ def parse(path, include_dir):
                 cur_fn.sig_re = m.group(1)
             elif d == '@nobody':
                 cur_fn.nobody = True
+            elif d == '@optional':
+                cur_fn.optional = True
             elif d == '@attr':
                 cur_fn.extra_attrs.append(rest)
             elif d == '@requires':
